@@ -13,6 +13,7 @@ import numpy as np
 from mc import env
 from mc import seeds, walker, rawdigest
 from mc.core import R, jhash
+import h5py
 import nixio as nix
 
 LEVEL = "model_checking"
@@ -225,6 +226,18 @@ def run_case(case):
                 kid.create_property("kp", [2.5])
                 kid.create_section("leaf", "sectype").create_property("lp", ["x"])
             src = K["src"](f)
+        # entities that are called like the HDF5 dataset of an array ("data"), inside everything that gets copied
+        if not (kind == "section-nested" and hk == "creation"):
+            blk_ = f.blocks["blk"]
+            if "data" not in blk_.data_arrays:
+                dnamed = blk_.create_data_array("data", "signal", data=np.array([4.0, 5.0]))
+                dnamed.append_sampled_dimension(1.0)
+                blk_.tags["tag"].references.append(dnamed)
+                blk_.multi_tags["mtag"].references.append(dnamed)
+                blk_.groups["grp"].data_arrays.append(dnamed)
+                f.sections["sec"].create_property("data", [7, 8])
+                f.sections["sec"].create_section("data", "sectype").create_property("data", ["d"])
+                f.sections["sec"].sections["sec"].create_section("data", "sectype")
         srcname = src.name
         # ---- destination parent
         destfile = f
@@ -362,6 +375,14 @@ def run_case(case):
             if own(src_t if children is not False else dict(src_t, sections=[])) != own(cp_t):
                 r.viol("C20|%s|ids-not-kept" % cls, "keep_id was requested but the ids of the copy differ from the source", {})
         else:
+            # every entity id stored anywhere inside the copy (children at any depth, embedded link targets such as
+            # feature data, references, sources, metadata, dimension links): HDF5-level scan of the copy's subtree
+            inside = rawdigest.entity_ids(copy._h5group.h5obj) if isinstance(copy._h5group.h5obj, h5py.Group) else {}
+            stale = sorted(i for i in inside if i in before_ids)
+            if stale:
+                r.viol("C20|%s|ids-not-fresh|inside-the-copy" % cls,
+                       "fresh ids were requested but %d id(s) stored inside the copy existed before, e.g. at %s" % (
+                           len(stale), [inside[i][0] for i in stale[:3]]), {})
             new_ids = own(cp_t)
             if any(i in before_ids for i in new_ids):
                 r.viol("C20|%s|ids-not-fresh" % cls, "fresh ids were requested but the copy carries an id that existed before: %r" % (
@@ -393,6 +414,44 @@ def run_case(case):
             if src.data_arrays["sig"].label == "inside-copy" or float(np.asarray(src.data_arrays["apos"][0, 0]).ravel()[0]) == 123.0:
                 r.viol("C20|%s|change-of-copy-visible-in-source|array" % cls, "changing an array of the copied block changed the source block", {})
                 return r
+        # ---- a copy OF THE COPY after the copy was changed
+        try:
+            copy.definition = "the-copy-was-changed"
+        except Exception:
+            pass
+        # the copy has been mutated and now differs from its source: a copy OF THE COPY (same destination,
+        # same id policy) must reproduce the copy as it is now, not the original
+        r.transitions += 1
+        try:
+            if children is None:
+                second = K["copy"](dest, copy, keep, "second-copy")
+            else:
+                second = K["copy"](dest, copy, keep, "second-copy", children)
+            sexc = None
+        except Exception as e:  # noqa
+            second, sexc = None, e
+        if sexc is not None:
+            r.viol("C20|%s|copy-of-the-copy-raises-%s" % (cls, type(sexc).__name__),
+                   "copying the (mutated) copy of %s again raises %s: %s" % (kind, type(sexc).__name__, str(sexc)[:120]), {})
+            return r
+        try:
+            second = [e for e in getattr(dest, K["cont"]) if e.name == "second-copy"][-1]
+        except Exception:
+            second = None
+        if second is None:
+            r.viol("C20|%s|copy-of-the-copy-not-found" % cls, "the copy of the copy is not in the destination", {})
+            return r
+        a2 = walker.canon(core_subtree(copy))
+        b2 = walker.canon(core_subtree(second))
+        a2.pop("name", None)
+        b2.pop("name", None)
+        if children is False:
+            a2["sections"] = []
+        if a2 != b2:
+            keys = walker.diff_keys(a2, b2)
+            r.viol("C20|%s|copy-of-the-copy-differs:%s" % (cls, ",".join(keys[:2])[:100]),
+                   "a copy of the mutated copy of %s differs from it: %s" % (kind, "; ".join(walker.diff(a2, b2, limit=4))), {})
+            return r
         # ---- independence: every mutation of the menu on the copy, then on the source
         for side, target, other in (("copy", copy, src), ("source", src, copy)):
             for mname, mfn in menu(kind):
